@@ -41,7 +41,7 @@ META = {
         "children in slots 3, 6, 9 yielding 1, 2, 2 symbolic pairs or one "
         "stub child in any one of the 16 slots yielding 2; local pairs "
         "decoded at a symbolic (chip, core) of the 256x256x18 space.  (4) "
-        "compress_flood_fill_regions on 15 fixed shapes (one chip with 3 "
+        "compress_flood_fill_regions on 16 fixed shapes (one chip with 3 "
         "cores; single chips in different 16x16 blocks of one 64x64 block "
         "and in different 4x4 blocks of one 16x16 block, the block visited "
         "first holding the larger x; 4x4 blocks whose entry with the "
@@ -100,7 +100,7 @@ META = {
         "limits) wherever a test point is quantified",
     ],
     "outside_claim": [
-        "the induction itself and target sets other than the 15 shapes of "
+        "the induction itself and target sets other than the 16 shapes of "
         "(4) as far as whole-function behaviour goes",
         "(3): more than 4 cores with a non-empty local selection at one "
         "node; more than 3 children present / 2 pairs per child",
@@ -763,6 +763,15 @@ STRUCTURES = {
         _rect(4, 0, 1, 1, [3]), _rect(5, 0, 1, 1, [3, 9, 16]),
         _rect(0, 4, 1, 1, [4, 16, 17]), _rect(1, 4, 1, 1, [5]),
         _rect(4, 4, 1, 1, [6]), _rect(5, 4, 1, 1, [6, 10, 16, 17])]),
+    # a node and its FIRST child (same base, one level down) both emit a
+    # pair with the same core mask, at three nested levels: a full 16x16
+    # block and, in the first 16x16 block, a full 4x4 block and an incomplete
+    # first 4x4 block, all for the same cores (the three region words differ
+    # in the level field and the select bits only and are neighbours in the
+    # sorted output)
+    "same mask at nested levels": (6, [
+        _rect(16, 0, 16, 16, [3, 16]), _rect(4, 0, 4, 4, [3, 16])] + _minus(
+        [_rect(0, 0, 4, 4, [3, 16])], {(1, 2)})),
     # a single chip, several cores (nothing collapses)
     "single chip": (0, [_rect(0, 0, 1, 1, [0, 9, 17])]),
     # sparse: far apart chips inside a 64x64 window, different cores
@@ -938,7 +947,9 @@ def units(tier, seed):
              ("l2 blocks of one l1", 1, 0), ("l2 blocks of one l1", 0, 1),
              ("l3 blocks of one l2", 1, 0), ("l3 blocks of one l2", 0, 2),
              ("cores 16/17 on the smaller entry", 2, 0),
-             ("cores 16/17 on the smaller entry", 0, 1)]
+             ("cores 16/17 on the smaller entry", 0, 1),
+             ("same mask at nested levels", 1, 0),
+             ("same mask at nested levels", 0, 2)]
     if thorough:
         whole = [("single chip", 5, 0),
                  ("l3 full core1, 15/16 core2", 4, 0),
@@ -965,7 +976,10 @@ def units(tier, seed):
                  ("l3 blocks of one l2", 2, 2),
                  ("cores 16/17 on the smaller entry", 4, 0),
                  ("cores 16/17 on the smaller entry", 3, 1),
-                 ("cores 16/17 on the smaller entry", 3, 2)]
+                 ("cores 16/17 on the smaller entry", 3, 2),
+                 ("same mask at nested levels", 2, 0),
+                 ("same mask at nested levels", 1, 1),
+                 ("same mask at nested levels", 1, 2)]
     for (st, fb, order) in whole:
         us.append(Unit("whole %s free=%d order=%d" % (st, fb, order), h_whole,
                        dict(structure=st, free_bits=fb, order=order),
